@@ -75,6 +75,26 @@ def rows_self_consistent(df, m, what, new_only_from=0, approx=False):
     return len(rows)
 
 
+def crash_state_hash(root, victim, role):
+    """the durable state a killed process left behind: which files exist and
+    whether each is empty / partial-sized (names with uuids normalised)"""
+    import re
+    import hashlib
+
+    items = []
+    for d, _, files in os.walk(root):
+        for f in sorted(files):
+            p = os.path.join(d, f)
+            rel = os.path.relpath(p, root)
+            rel = re.sub(r"[0-9a-f]{32}", "U", rel)
+            try:
+                n = os.path.getsize(p)
+            except OSError:
+                n = -1
+            items.append((rel, 0 if n == 0 else (1 if n < 64 else 2)))
+    return hashlib.md5(repr((victim, role, sorted(items))).encode()).hexdigest()[:12]
+
+
 class CrashRun:
     def __init__(self, ctx):
         import xyzpy
@@ -433,6 +453,7 @@ def run_c10(ctx):
         last = w.log[-3][1] if len(w.log) >= 3 else "?"
         tag = "{} killed at site {}/{}".format(victim, k, K)
         ctx.stats["crashes"] += 1
+        ctx.distinct.add(crash_state_hash(w.root, victim, r.role))
         try:
             _after_crash(ctx, r, victim, tag, k)
         except Violation as v:
